@@ -143,6 +143,7 @@ local macro "steps_step" : tactic =>
     | apply ensureOffered_steps
     | apply repeatN_steps _ _ (fun _ h => fireL_steps _ _ h)
     | apply foldl_steps _ (fun _ _ h => fireL_steps _ _ h)
+    | apply foldl_steps _ (fun _ _ h => ensureOffered_steps _ _ h)
     | split)
 
 theorem handle_acc_steps {a : State} (rc : RCfg) {rs : RS} (rid : Nat) (ids : List Nat) (rest : List TEv)
@@ -236,6 +237,18 @@ example :
                        timer := false, stored := [], sends := [(0, [1, 2])] }
     let r := replay rc [.ss 0 [1, 2], .acc 0 [1, 2], .es 0 [1, 2], .ee 0 false false false, .shutreq, .shutret]
     r.err = none ∧ r.steps = 11 ∧ r.s.phase = 5 ∧ r.retSeen = true := by decide
+
+theorem goN_steps {a : State} (rc : RCfg) (n : Nat) (rs : RS) (t : List TEv) (h : Steps a rs.s) : Steps a (goN rc n rs t).s := by
+  induction n generalizing rs t with
+  | zero => simp only [goN]; exact h
+  | succ n ih =>
+    cases t with
+    | nil => simp only [goN]; exact h
+    | cons e rest => simp only [goN]; exact ih _ _ (handle_steps rc e rest h)
+
+theorem goN_reachable (rc : RCfg) (n : Nat) (t : List TEv) :
+    Reachable (goN rc n { s := init rc.cfg rc.nCons rc.workers rc.timer } t).s :=
+  (goN_steps rc n _ t (Steps.refl _)).reachable (Reachable.init _ _ _ _)
 
 /-! ## property-level statements (counted obligations) -/
 
